@@ -11,6 +11,7 @@ package rostrconv
 //@   props C18
 //@   binds v
 //@   calls Atoi
+//@   params v
 //@   maypanic
 //@   track call.*
 //@   ensures [calls-the-wrapped-function-once|C18] count(call.ANY) == 1 && called(call.Atoi)
@@ -21,6 +22,7 @@ package rostrconv
 //@   props C18
 //@   binds v mt prec bitSize
 //@   calls FormatComplex
+//@   params v
 //@   maypanic
 //@   track call.*
 //@   ensures [calls-the-wrapped-function-once|C18] count(call.ANY) == 1 && called(call.FormatComplex)
@@ -31,6 +33,7 @@ package rostrconv
 //@   props C18
 //@   binds v mt prec bitSize
 //@   calls FormatFloat
+//@   params v
 //@   maypanic
 //@   track call.*
 //@   ensures [calls-the-wrapped-function-once|C18] count(call.ANY) == 1 && called(call.FormatFloat)
@@ -41,6 +44,7 @@ package rostrconv
 //@   props C18
 //@   binds v base
 //@   calls FormatInt
+//@   params v
 //@   maypanic
 //@   track call.*
 //@   ensures [calls-the-wrapped-function-once|C18] count(call.ANY) == 1 && called(call.FormatInt)
@@ -51,6 +55,7 @@ package rostrconv
 //@   props C18
 //@   binds v base
 //@   calls FormatUint
+//@   params v
 //@   maypanic
 //@   track call.*
 //@   ensures [calls-the-wrapped-function-once|C18] count(call.ANY) == 1 && called(call.FormatUint)
@@ -61,6 +66,7 @@ package rostrconv
 //@   props C18
 //@   binds v
 //@   calls ParseBool
+//@   params v
 //@   maypanic
 //@   track call.*
 //@   ensures [calls-the-wrapped-function-once|C18] count(call.ANY) == 1 && called(call.ParseBool)
@@ -71,6 +77,7 @@ package rostrconv
 //@   props C18
 //@   binds v bitSize
 //@   calls ParseFloat
+//@   params v
 //@   maypanic
 //@   track call.*
 //@   ensures [calls-the-wrapped-function-once|C18] count(call.ANY) == 1 && called(call.ParseFloat)
@@ -81,6 +88,7 @@ package rostrconv
 //@   props C18
 //@   binds v base bitSize
 //@   calls ParseInt
+//@   params v
 //@   maypanic
 //@   track call.*
 //@   ensures [calls-the-wrapped-function-once|C18] count(call.ANY) == 1 && called(call.ParseInt)
@@ -91,6 +99,7 @@ package rostrconv
 //@   props C18
 //@   binds v base bitSize
 //@   calls ParseUint
+//@   params v
 //@   maypanic
 //@   track call.*
 //@   ensures [calls-the-wrapped-function-once|C18] count(call.ANY) == 1 && called(call.ParseUint)
@@ -101,6 +110,7 @@ package rostrconv
 //@   props C18
 //@   binds v base bitSize
 //@   calls ParseUint
+//@   params v
 //@   maypanic
 //@   track call.*
 //@   ensures [calls-the-wrapped-function-once|C18] count(call.ANY) == 1 && called(call.ParseUint)
